@@ -1256,4 +1256,457 @@ Proof.
   rewrite EX in GA', GB'.
   split; [exact GA'|]. split; [exact GB'|]. intros WA WB. rewrite GA', GB', WA, WB. reflexivity.
 Qed.
+
+(* ------------------------------------------------------------------ per-segment tilts *)
+(* C02 field by field: every field supported on the n x m plane contributes the defining sum of ITS plane function at
+   the sample's coordinate minus ITS shift, inside ITS window *)
+Theorem propagate_field_plane_samples shift_of (w : wavefront S) dur duc shape pshape os mask dxr dxc Sr Sc Pr Pc b n m :
+  wptype w <> PtNone -> wps w = Some (dxr, dxc) ->
+  (forall f, In f (wdata w) -> sized S f /\
+     forall r c, inr n (r + n / 2) && inr m (c + m / 2) = false -> embed f r c = k0) ->
+  0 < n -> 0 < m ->
+  match shape with None => wshape w | Some s => s end = (Sr, Sc) ->
+  match pshape with None => (Sr, Sc) | Some p => p end = (Pr, Pc) ->
+  0 < Sr -> 0 < Sc -> 0 < Pr -> 0 < Pc -> 1 <= os ->
+  (forall k, mask = Some k -> mnr k = Sr * os /\ mnc k = Sc * os) ->
+  mask_bbox mask (Sr * os) (Sc * os) = Ok b ->
+  let ar := dft_alpha1 dxr dur (wwl w) (wfocal w) os in
+  let ac := dft_alpha1 dxc duc (wwl w) (wfocal w) os in
+  exists w' o, propagate_dft sq shift_of w dur duc shape pshape os mask = Ok w' /\
+    wshape w' = (Sr * os, Sc * os) /\
+    wfield w' = Ok o /\ nr o = Sr * os /\ nc o = Sc * os /\
+    (forall i j, 0 <= i < Sr * os -> 0 <= j < Sc * os ->
+      let u := i - (Sr * os) / 2 in let v := j - (Sc * os) / 2 in
+      get o i j = lsum S (map (fun f =>
+        if inE b i j && inE (array_extent (Pr * os) (Pc * os) (qfix (fst (shift_of f))) (qfix (snd (shift_of f)))) u v
+        then (fourier_sum (mkArr n m (fun x y => embed f (x - n / 2) (y - m / 2))) ar ac 0 0
+                          (zq u - fst (shift_of f))%Qc (zq v - snd (shift_of f))%Qc
+              * sq (qabs (ar * ac)%Qc))%K
+        else k0) (wdata w))).
+Proof.
+  intros Hpt Hps Hd Hn Hm Hshape Hpshape HSr HSc HPr HPc Hos Hmk Hb ar ac.
+  assert (Hd2 : forall f, In f (wdata w) -> exists a, fd f = D2 a).
+  { intros f Hf. destruct (Hd f Hf) as [(a & Ea & _) _]. now exists a. }
+  destruct (propagate_dft_chips S Sring Skernel sq shift_of w dur duc shape pshape os mask dxr dxc Sr Sc Pr Pc b Hpt Hps
+              Hd2 Hshape Hpshape HSr HSc HPr HPc Hos Hmk Hb)
+    as (w' & o & Hw & Hs & Ho & N & M & G).
+  exists w', o. repeat (split; [assumption|]).
+  intros i j Hi Hj. rewrite (G i j Hi Hj). cbv zeta. fold ar ac. apply (lsum_map_ext S). intros f Hf.
+  destruct (Hd f Hf) as [(a & Ea & Hn1 & Hm1) Hsup]. rewrite Ea. destr_if; [|reflexivity].
+  unfold unitary_scale. f_equal.
+  destruct (box_exists S [f] (Z.max n m)) as (B & HB & Hbox).
+  rewrite (field_sum_is_plane_transform S Sring sq f a B _ _ _ _ Ea Hn1 Hm1 (Hbox f (or_introl eq_refl))).
+  apply (plane_fraunhofer_box S Sring B n m (embed f)); try assumption; lia.
+Qed.
+
+(* the pair (a, b) of a field whose tilt list is the single element Tilt(x=a, y=b) (stored as TiltAng b a) *)
+Definition tilt_ab (f : field S) : Qc * Qc :=
+  match ftilt f with [TiltAng ty tx] => (tx, ty) | _ => (0%Qc, 0%Qc) end.
+Lemma tilt_ab_single (f : field S) a b : ftilt f = [mk_tilt a b] -> tilt_ab f = (a, b).
+Proof. intros H. unfold tilt_ab. rewrite H. reflexivity. Qed.
+
+Lemma fourier_sum_lsum {A} (t : A -> Z -> Z -> S) (l : list A) n m ar ac U V :
+  fourier_sum (mkArr n m (fun x y => lsum S (map (fun a => t a x y) l))) ar ac 0 0 U V
+  = lsum S (map (fun a => fourier_sum (mkArr n m (t a)) ar ac 0 0 U V) l).
+Proof.
+  induction l as [|a l IH].
+  - cbn [map]. unfold lsum at 2. cbn [fold_right]. unfold fourier_sum. cbn [nr nc get].
+    apply (sumZ_zero_ext S Sring); intros x _. apply (sumZ_zero_ext S Sring); intros y _. unfold lsum. cbn. ring.
+  - cbn [map]. rewrite (PropagateP.lsum_cons S), <- IH.
+    rewrite <- (fourier_sum_add S Sring (mkArr n m (t a)) (mkArr n m (fun x y => lsum S (map (fun a0 => t a0 x y) l))))
+      by reflexivity. reflexivity.
+Qed.
+
+(* C03 o C04 o C02, at the level of the wavefronts two chains leave behind.  wA: array fields on the n x m plane, each
+   carrying ONE angular tilt Tilt(x=a_f, y=b_f) of its own as metadata (the segments of a segmented pupil after
+   fit_tilt).  wB: untilted array fields - however the plane is cut (C03) - whose sum is the sum of wA's fields, each
+   multiplied by the phasor of its own ramp a_f X dx_r - b_f Y dx_c.  Then A renders sum_f [window_f] X_f and B renders
+   [window_0] sum_f X_f with the SAME per-segment terms X_f: the segment's transform moved by its own shift *)
+Theorem segmented_tilt_fields (wA wB : pwf S) z dur duc shape pshape os dxr dxc n m Sr Sc Pr Pc :
+  pw_shape wA = Some (n, m) -> pw_pix wA = Some (dxr, dxc) -> pw_focal wA = FVal z ->
+  pw_shape wB = Some (n, m) -> pw_pix wB = Some (dxr, dxc) -> pw_focal wB = FVal z -> pw_lam wB = pw_lam wA ->
+  (forall f, In f (pw_data wA) -> fsized f /\ (exists a b, ftilt f = [mk_tilt a b]) /\
+     forall r c, inr n (r + n / 2) && inr m (c + m / 2) = false -> embed f r c = k0) ->
+  (forall f, In f (pw_data wB) -> fsized f /\ ftilt f = []) ->
+  (forall r c, embed_sum (pw_data wB) r c =
+     lsum S (map (fun f => (embed f r c *
+        ke (- (opd_ramp (fst (tilt_ab f)) (snd (tilt_ab f)) dxr dxc r c / pw_lam wA))%Qc)%K) (pw_data wA))) ->
+  dur <> 0%Qc -> duc <> 0%Qc -> pw_lam wA <> 0%Qc -> z <> 0%Qc ->
+  0 < n -> 0 < m ->
+  match shape with None => (n, m) | Some s => s end = (Sr, Sc) ->
+  match pshape with None => (Sr, Sc) | Some p => p end = (Pr, Pc) ->
+  0 < Sr -> 0 < Sc -> 0 < Pr -> 0 < Pc -> 1 <= os ->
+  let ar := ((dxr * dur) / (pw_lam wA * z * zq os))%Qc in
+  let ac := ((dxc * duc) / (pw_lam wA * z * zq os))%Qc in
+  let shr := fun f : field S => (z * fst (tilt_ab f) * zq os / dur)%Qc in
+  let shc := fun f : field S => (- (z * snd (tilt_ab f) * zq os / duc))%Qc in
+  let X := fun (f : field S) (i j : Z) =>
+    (fourier_sum (mkArr n m (fun x y => embed f (x - n / 2) (y - m / 2))) ar ac 0 0
+                 (zq (i - (Sr * os) / 2) - shr f)%Qc (zq (j - (Sc * os) / 2) - shc f)%Qc
+     * sq (qabs (ar * ac)%Qc))%K in
+  exists vA oA vB oB,
+    propagate_pwf_tilted wA dur duc shape pshape os = Ok vA /\ wfield vA = Ok oA /\
+    rbind (to_wavefront wB PtPupil) (fun w => propagate_dft sq (@no_shift S) w dur duc shape pshape os None) = Ok vB /\
+    wfield vB = Ok oB /\
+    nr oA = Sr * os /\ nc oA = Sc * os /\ nr oB = Sr * os /\ nc oB = Sc * os /\
+    forall i j, 0 <= i < Sr * os -> 0 <= j < Sc * os ->
+      let u := i - (Sr * os) / 2 in let v := j - (Sc * os) / 2 in
+      get oA i j = lsum S (map (fun f =>
+         if inE (array_extent (Pr * os) (Pc * os) (qfix (shr f)) (qfix (shc f))) u v then X f i j else k0) (pw_data wA)) /\
+      get oB i j = (if inE (array_extent (Pr * os) (Pc * os) 0 0) u v then lsum S (map (fun f => X f i j) (pw_data wA)) else k0).
+Proof.
+  intros SA PA FA SB PB FB EL HA HB Hsum Hdur Hduc Hlam Hz Hn Hm Hshape Hpshape HSr HSc HPr HPc Hos ar ac shr shc X.
+  assert (Hb : mask_bbox None (Sr * os) (Sc * os) = Ok (0, Sr * os - 1, 0, Sc * os - 1)) by reflexivity.
+  assert (Hmk : forall k, @None bmask = Some k -> mnr k = Sr * os /\ mnc k = Sc * os) by discriminate.
+  (* A *)
+  set (w3 := mkWf (pw_lam wA) (pw_pix wA) (Some z) (n, m) PtPupil (pw_data wA)).
+  assert (EA3 : to_wavefront wA PtPupil = Ok w3).
+  { rewrite (to_wavefront_ok S wA n m PtPupil SA) by (rewrite FA; discriminate). now rewrite FA. }
+  assert (HdA : forall f, In f (wdata w3) -> sized S f /\
+     forall r c, inr n (r + n / 2) && inr m (c + m / 2) = false -> embed f r c = k0).
+  { intros f Hf. destruct (HA f Hf) as (Hs & _ & Hsup). split; [now apply fsized_sized|exact Hsup]. }
+  destruct (propagate_field_plane_samples (ang_shift (Some z) dur duc os) w3 dur duc shape pshape os None dxr dxc
+              Sr Sc Pr Pc (0, Sr * os - 1, 0, Sc * os - 1) n m ltac:(discriminate) PA HdA Hn Hm Hshape Hpshape
+              HSr HSc HPr HPc Hos Hmk Hb) as (vA & oA & EvA & _ & FoA & NA & MA & GA).
+  (* B *)
+  set (w4 := mkWf (pw_lam wB) (pw_pix wB) (Some z) (n, m) PtPupil (pw_data wB)).
+  assert (EB4 : to_wavefront wB PtPupil = Ok w4).
+  { rewrite (to_wavefront_ok S wB n m PtPupil SB) by (rewrite FB; discriminate). now rewrite FB. }
+  assert (HdB : forall f, In f (wdata w4) -> @no_shift S f = (0%Qc, 0%Qc) /\ sized S f).
+  { intros f Hf. split; [reflexivity|]. apply fsized_sized, (HB f Hf). }
+  assert (HsupB : forall r c, inr n (r + n / 2) && inr m (c + m / 2) = false -> embed_sum (wdata w4) r c = k0).
+  { intros r c E. cbn [wdata w4]. rewrite Hsum. apply (PlaneP.lsum_zero S Sring). intros x Hx.
+    apply in_map_iff in Hx. destruct Hx as (f & <- & Hf). destruct (HA f Hf) as (_ & _ & Hsup). rewrite (Hsup r c E). ring. }
+  destruct (propagate_plane_samples S Sring Skernel sq (@no_shift S) w4 dur duc shape pshape os None dxr dxc Sr Sc Pr Pc
+              (0, Sr * os - 1, 0, Sc * os - 1) n m 0%Qc 0%Qc ltac:(discriminate) PB HdB Hn Hm HsupB Hshape Hpshape
+              HSr HSc HPr HPc Hos Hmk Hb) as (vB & oB & EvB & _ & FoB & NB & MB & GB).
+  exists vA, oA, vB, oB.
+  split; [unfold propagate_pwf_tilted; rewrite EA3; cbn [rbind wfocal w3]; exact EvA|]. split; [exact FoA|].
+  split; [rewrite EB4; cbn [rbind]; exact EvB|]. split; [exact FoB|]. repeat (split; [assumption|]).
+  intros i j Hi Hj. cbv zeta.
+  assert (Esh : forall f, In f (pw_data wA) -> ang_shift (Some z) dur duc os f = (shr f, shc f)).
+  { intros f Hf. destruct (HA f Hf) as (_ & (a & b0 & Et) & _). unfold shr, shc. rewrite (tilt_ab_single f a b0 Et).
+    now apply ang_shift_single. }
+  split.
+  - rewrite (GA i j Hi Hj). cbv zeta. cbn [wwl wfocal wdata w3 dft_alpha1]. fold ar ac.
+    replace (inE (0, Sr * os - 1, 0, Sc * os - 1) i j) with true by (unfold inE, inb; lia). cbn [andb].
+    apply (lsum_map_ext S). intros f Hf. rewrite (Esh f Hf). cbn [fst snd]. reflexivity.
+  - rewrite (GB i j Hi Hj). cbv zeta. cbn [wwl wfocal wdata w4 dft_alpha1]. rewrite EL. fold ar ac.
+    replace (inE (0, Sr * os - 1, 0, Sc * os - 1) i j) with true by (unfold inE, inb; lia). cbn [andb].
+    rewrite qfix_0. destr_if; [|reflexivity]. unfold X. cbv beta.
+    rewrite (PropagateP.lsum_map_scale S Sring). f_equal.
+    replace (zq (i - Sr * os / 2) - 0)%Qc with (zq (i - Sr * os / 2)) by ring.
+    replace (zq (j - Sc * os / 2) - 0)%Qc with (zq (j - Sc * os / 2)) by ring.
+    rewrite (fourier_sum_ext S _ (mkArr n m (fun x y => lsum S (map (fun f =>
+               (embed f (x - n / 2) (y - m / 2) *
+                ke (- (opd_ramp (fst (tilt_ab f)) (snd (tilt_ab f)) dxr dxc (x - n / 2) (y - m / 2) / pw_lam wA))%Qc)%K)
+               (pw_data wA))))) by (try reflexivity; intros x y _ _; cbn [get]; apply Hsum).
+    rewrite fourier_sum_lsum. apply (lsum_map_ext S). intros f Hf.
+    destruct (tilt_metadata_equals_ramp S Sring Skernel (mkArr n m (fun x y => embed f (x - n / 2) (y - m / 2)))
+                (fst (tilt_ab f)) (snd (tilt_ab f)) dxr dxc dur duc (pw_lam wA) z (zq os)
+                0 0 (zq (i - Sr * os / 2)) (zq (j - Sc * os / 2)) Hdur Hduc Hlam Hz ltac:(apply zq_neq0; lia))
+      as (sr' & sc' & _ & -> & -> & E).
+    cbn [nr nc get] in E. unfold Tilt.dft_alpha in E. fold ar ac in E. unfold shr, shc. rewrite <- E.
+    apply (fourier_sum_ext S); [reflexivity|reflexivity|]. cbn [nr nc get]. intros x y Hx Hy.
+    replace (x - n / 2 + 0) with (x - n / 2) by lia. replace (y - m / 2 + 0) with (y - m / 2) by lia. reflexivity.
+Qed.
+
+(* ------------------------------------------------------------------ a segmented pupil with one tilt per segment *)
+Lemma take_every_short {A} K : forall (l : list A) i, (length l <= i)%nat -> take_every K i l = [].
+Proof. induction l as [|x r IH]; intros i H; cbn [take_every]; [reflexivity|]. cbn [length] in H.
+  destruct i as [|j]; [lia|]. apply IH. lia. Qed.
+(* tilt[n::size] of a list with one entry per segment is the segment's own entry *)
+Lemma take_every_nth {A} K : forall (l : list A) i d, (i < length l)%nat -> (length l <= K + i)%nat ->
+  take_every K i l = [nth i l d].
+Proof. induction l as [|x r IH]; intros i d H1 H2; cbn [length] in *; [lia|]. cbn [take_every].
+  destruct i as [|j]; cbn [nth].
+  - rewrite take_every_short by lia. reflexivity.
+  - apply IH; lia. Qed.
+Lemma take_every_match {A} K i (l : list A) : match l with [] => [] | t :: r => take_every K i (t :: r) end = take_every K i l.
+Proof. destruct l; reflexivity. Qed.
+
+Definition mkt (ab : Qc * Qc) : tilt := mk_tilt (fst ab) (snd ab).
+(* what Plane.multiply leaves behind for segment (mask g, tilt (a, b)) of plane P hit by a fresh plane wave *)
+Definition seg_field (P : plane S) lam n m (x : field S) (gab : garr bool * (Qc * Qc)) : Prop :=
+  fsized x /\ ftilt x = [mkt (snd gab)] /\
+  forall r c, embed x r c =
+    (amp_at (pl_amp P) (r + n / 2) (c + m / 2) * Plane.phase lam (opd_at (pl_opd P) (r + n / 2) (c + m / 2))
+     * kofb (mask_at (fst gab) (r + n / 2) (c + m / 2)))%K.
+
+Lemma seg_phasors_from (P : plane S) lam n m (abs : list (Qc * Qc)) :
+  attr_compat P n m -> pl_tilt P = map mkt abs -> psize (pl_mask P) = length abs ->
+  forall ms sl, Forall2 (fun a s => pnr a = n /\ pnc a = m /\ slice_ok a s) ms sl ->
+  forall pre abs' k, abs = pre ++ abs' -> length pre = k -> length ms = length abs' ->
+  exists phs, phasors_from P lam n m k (map MK2 ms) sl = Ok phs /\
+    Forall2 (seg_field P lam n m) phs (combine ms abs').
+Proof.
+  intros Hc Htl HK ms sl H. induction H as [|a s ms sl (En & Em & Hs) H IH]; intros pre abs' k Eabs Hk Hlen.
+  - exists []. split; [reflexivity|]. destruct abs'; constructor.
+  - destruct abs' as [|ab abs'']; [discriminate|]. cbn [map phasors_from combine]. subst n m.
+    destruct (phasor_array_spec S Sring P lam k a s Hc Hs) as (p & Ep & Vp & Gp).
+    destruct (IH (pre ++ [ab]) abs'' (Datatypes.S k)) as (phs & Ephs & Hall).
+    { rewrite <- app_assoc. exact Eabs. } { rewrite app_length. cbn. lia. } { cbn in Hlen. lia. }
+    rewrite Ep. cbn [rbind]. rewrite Ephs. cbn [rbind]. exists (p :: phs). split; [reflexivity|].
+    constructor; [|exact Hall]. split; [exact Vp|]. split; [|exact Gp].
+    rewrite (phasor_tilt _ _ _ _ _ _ _ _ Ep), take_every_match, Htl, HK.
+    rewrite (take_every_nth (length abs) (map mkt abs) k (mkt ab)).
+    + rewrite Eabs, map_app, app_nth2 by (rewrite map_length; lia). rewrite map_length, Hk, Nat.sub_diag. reflexivity.
+    + rewrite map_length, Eabs, app_length. cbn. lia.
+    + rewrite map_length. lia.
+Qed.
+
+Lemma fmul_fresh_some (p : field S) : fsized p ->
+  exists x, fmul (mkField (D0 k1) 0 0 []) p = Some x /\ fsized x /\ ftilt x = ftilt p /\
+    forall r c, embed x r c = embed p r c.
+Proof.
+  intros Vp. set (f0 := mkField (S := S) (D0 k1) 0 0 []).
+  destruct (fmul f0 p) as [x|] eqn:E.
+  - exists x. split; [reflexivity|]. split; [exact (fmul_sized S f0 p x I Vp E)|]. split; [exact (fmul_tilt f0 p x E)|].
+    intros r c. destruct (fsized_not0d S p Vp) as [Vv Np].
+    pose proof (fmul_embed S Sring f0 p r c I Vv ltac:(now rewrite Np, Bool.andb_false_r)) as G.
+    rewrite E in G. cbn [embed_opt] in G. rewrite G. unfold embed_const. rewrite Np. cbn [f0 fd is0d dget]. ring.
+  - exfalso. unfold fsized in Vp. destruct p as [[v|d] orp ocp tp]; cbn [fd] in Vp; [contradiction|].
+    unfold fmul, mul_array, f0 in E. cbn [fd is0d andb same_shape negb dshape dget toarr offr offc ftilt fst snd] in E.
+    unfold mul_core, aconst in E. cbn [nr nc] in E.
+    destruct (intersect _ _) eqn:Ei.
+    + destruct (intersection_slices _ _) as [[[? ?] [? ?]] [[? ?] [? ?]]]. destruct (intersection_shift _ _). discriminate.
+    + unfold intersect, array_extent in Ei. lia.
+Qed.
+
+Lemma seg_fields_fresh (P : plane S) lam n m : forall phs L, Forall2 (seg_field P lam n m) phs L ->
+  exists data, flat_map (fun p => keep (fmul (mkField (D0 k1) 0 0 []) p)) phs = data /\ Forall2 (seg_field P lam n m) data L.
+Proof.
+  intros phs L H. induction H as [|p gab phs L (Vp & Tp & Gp) H (data & Ed & Hd)].
+  - exists []. split; [reflexivity|constructor].
+  - destruct (fmul_fresh_some p Vp) as (x & Ex & Vx & Tx & Gx).
+    exists (x :: data). split; [cbn [flat_map]; rewrite Ex, Ed; reflexivity|]. constructor; [|exact Hd].
+    split; [exact Vx|]. split; [now rewrite Tx|]. intros r c. now rewrite Gx, Gp.
+Qed.
+
+Lemma slices_forall2 n m : forall (ms : list (garr bool)) sl, rmapM boundary_slice ms = Ok sl ->
+  (forall a, In a ms -> pnr a = n /\ pnc a = m) ->
+  Forall2 (fun a s => pnr a = n /\ pnc a = m /\ slice_ok a s) ms sl.
+Proof.
+  intros ms sl E. apply rmapM_Forall2 in E. induction E as [|a s ms' sl' Ea E IH]; intros Hin; [constructor|].
+  constructor.
+  - destruct (Hin a (or_introl eq_refl)). repeat split; try assumption. now apply boundary_slice_ok.
+  - apply IH. intros; apply Hin; now right.
+Qed.
+
+(* Plane.multiply of a segmented pupil (cube of K masks, .tilt = one Tilt per segment) on a fresh plane wave: one array
+   field per segment, carrying exactly that segment's tilt *)
+Theorem segmented_multiply_fresh (P : plane S) (ms : list (garr bool)) (abs : list (Qc * Qc)) lam pix foc n m px :
+  plane_ok P n m -> pl_mask P = PM3 n m ms -> pl_tilt P = map mkt abs -> length abs = length ms ->
+  mul_pixelscale (pl_pix P) (pix_broadcast pix) = Ok px ->
+  exists w1, plane_multiply P (pwf_init lam pix foc []) = Ok w1 /\
+    pw_lam w1 = lam /\ pw_pix w1 = px /\ pw_shape w1 = Some (n, m) /\
+    pw_focal w1 = (match pl_focal P with Some f => f | None => focal_truthy (pw_focal (pwf_init (S := S) lam pix foc [])) end) /\
+    Forall2 (seg_field P lam n m) (pw_data w1) (combine ms abs).
+Proof.
+  intros Hok Em Htl Hlen Hpx.
+  destruct (plane_multiply_spec S Sring P (pwf_init lam pix foc []) n m px Hok (fresh_valid S lam pix foc []) Hpx)
+    as (w1 & E1 & L1 & P1 & S1 & F1 & _ & _).
+  exists w1. repeat (split; [assumption|]).
+  pose proof Hok as [Hd Hs Hl Ha]. rewrite Em in Hs, Hl. cbn [plane_slice masks_of] in Hs, Hl.
+  pose proof (slices_forall2 n m ms (pl_slices P) Hs Hl) as F2.
+  destruct (seg_phasors_from P lam n m abs Ha Htl ltac:(rewrite Em; cbn [psize]; lia) ms (pl_slices P) F2 [] abs 0%nat
+              eq_refl eq_refl ltac:(lia)) as (phs & Ephs & Hphs).
+  destruct (seg_fields_fresh P lam n m phs _ Hphs) as (data & Ed & Hdata).
+  unfold plane_multiply in E1. cbn [pwf_init pw_pix pw_data pw_lam] in E1. rewrite Hpx in E1. cbn [rbind] in E1.
+  unfold plane_phasors in E1. rewrite Em, Ephs in E1. cbn [rbind] in E1. injection E1 as <-. cbn [pw_data].
+  unfold mul_fields. cbn [flat_map]. rewrite app_nil_r, Ed. exact Hdata.
+Qed.
+
+(* the OPD that holds every segment's ramp on that segment's own mask: sum_k [mask_k] (a_k X dx_r - b_k Y dx_c) at array
+   index (i, j), (X, Y) = (i - floor(n/2), j - floor(m/2)) *)
+Definition seg_ramp (L : list (garr bool * (Qc * Qc))) (dxr dxc : Qc) (n m i j : Z) : Qc :=
+  fold_right (fun gab acc =>
+    ((if mask_at (fst gab) i j then opd_ramp (fst (snd gab)) (snd (snd gab)) dxr dxc (i - n / 2) (j - m / 2) else 0) + acc)%Qc)
+    0%Qc L.
+
+Lemma seg_all_false (L : list (garr bool * (Qc * Qc))) dxr dxc n m i j lam (W : Qc) :
+  (forall gab, In gab L -> mask_at (fst gab) i j = false) ->
+  seg_ramp L dxr dxc n m i j = 0%Qc /\ @cover S (map fst L) i j = k0 /\
+  lsum S (map (fun gab => (Plane.phase lam W * kofb (mask_at (fst gab) i j)
+       * ke (- (opd_ramp (fst (snd gab)) (snd (snd gab)) dxr dxc (i - n / 2) (j - m / 2) / lam))%Qc)%K) L) = k0.
+Proof.
+  induction L as [|gab L IH]; intros H.
+  - repeat split; reflexivity.
+  - destruct IH as (I1 & I2 & I3); [intros; apply H; now right|].
+    cbn [seg_ramp fold_right map cover]. fold (seg_ramp L dxr dxc n m i j). fold (@cover S (map fst L) i j).
+    rewrite (PropagateP.lsum_cons S), I1, I2, I3, (H gab (or_introl eq_refl)). cbn [kofb].
+    repeat split; ring.
+Qed.
+
+(* disjoint segment masks: the phasor of the summed ramps times the mask multiplicity is the sum over the segments of
+   the segment's indicator times the phasor of its own ramp *)
+Lemma seg_sum_identity (L : list (garr bool * (Qc * Qc))) dxr dxc n m i j lam (W : Qc) :
+  disjoint_masks (map fst L) ->
+  (Plane.phase lam (W + seg_ramp L dxr dxc n m i j)%Qc * cover (map fst L) i j)%K
+  = lsum S (map (fun gab => (Plane.phase lam W * kofb (mask_at (fst gab) i j)
+       * ke (- (opd_ramp (fst (snd gab)) (snd (snd gab)) dxr dxc (i - n / 2) (j - m / 2) / lam))%Qc)%K) L).
+Proof.
+  induction L as [|gab L IH]; intros Hd.
+  - cbn [map cover fold_right]. unfold lsum. cbn [fold_right]. ring.
+  - cbn [map] in Hd. inversion Hd as [|g0 l0 Hhd Htl]; subst.
+    cbn [seg_ramp fold_right map cover]. fold (seg_ramp L dxr dxc n m i j). fold (@cover S (map fst L) i j).
+    rewrite (PropagateP.lsum_cons S). destruct (mask_at (fst gab) i j) eqn:E.
+    + assert (Hall : forall g, In g L -> mask_at (fst g) i j = false).
+      { intros g Hg. rewrite Forall_forall in Hhd. specialize (Hhd (fst g) (in_map fst L g Hg) i j).
+        rewrite E in Hhd. exact Hhd. }
+      destruct (seg_all_false L dxr dxc n m i j lam W Hall) as (I1 & I2 & I3). rewrite I1, I2, I3. cbn [kofb].
+      unfold Plane.phase.
+      replace (- ((W + (opd_ramp (fst (snd gab)) (snd (snd gab)) dxr dxc (i - n / 2) (j - m / 2) + 0)) / lam))%Qc
+        with (- (W / lam) + - (opd_ramp (fst (snd gab)) (snd (snd gab)) dxr dxc (i - n / 2) (j - m / 2) / lam))%Qc
+        by (unfold Qcdiv; ring).
+      rewrite (ke_add S Skernel). ring.
+    + rewrite <- (IH Htl). cbn [kofb]. replace (W + (0 + seg_ramp L dxr dxc n m i j))%Qc with (W + seg_ramp L dxr dxc n m i j)%Qc by ring.
+      ring.
+Qed.
+
+Lemma lsum_forall2 {A B} (R : A -> B -> Prop) (h : A -> S) (h' : B -> S) (l : list A) (L : list B) :
+  Forall2 R l L -> (forall x y, In y L -> R x y -> h x = h' y) -> lsum S (map h l) = lsum S (map h' L).
+Proof.
+  intros H. induction H as [|x y l L Hxy H IH]; intros E; [reflexivity|]. cbn [map].
+  rewrite !(PropagateP.lsum_cons S), (E x y (or_introl eq_refl) Hxy), IH; [reflexivity|].
+  intros a b Hb. apply E. now right.
+Qed.
+
+Lemma Forall2_in_l {A B} (R : A -> B -> Prop) (l : list A) (L : list B) : Forall2 R l L ->
+  forall x, In x l -> exists y, In y L /\ R x y.
+Proof. intros H. induction H as [|a b l L Hab H IH]; intros x Hx; [destruct Hx|].
+  destruct Hx as [<-|Hx]; [exists b; split; [now left|exact Hab]|].
+  destruct (IH x Hx) as (y & Hy & Hr). exists y. split; [now right|exact Hr]. Qed.
+
+Lemma combine_map_fst {A B} (a : list A) (b : list B) : length b = length a -> map fst (combine a b) = a.
+Proof. revert b. induction a as [|x a IH]; intros [|y b] H; cbn in *; try reflexivity; try discriminate.
+  f_equal. apply IH. lia. Qed.
+
+Lemma in_combine_fst {A B} (a : list A) (b : list B) x : In x (combine a b) -> In (fst x) a.
+Proof. destruct x as [u v]. apply in_combine_l. Qed.
+
+(* the segmented pupil with every segment's ramp written into the OPD and no tilt metadata *)
+Definition seg_ramp_plane (P : plane S) (L : list (garr bool * (Qc * Qc))) (dxr dxc : Qc) (n m : Z) : plane S :=
+  mkPlane (pl_amp P) (OpdA (mkP n m (fun x y => (opd_at (pl_opd P) x y + seg_ramp L dxr dxc n m x y)%Qc)))
+          (pl_mask P) (pl_slices P) (pl_pix P) [] (pl_focal P).
+
+Lemma seg_ramp_plane_ok (P : plane S) L dxr dxc n m : plane_ok P n m -> plane_ok (seg_ramp_plane P L dxr dxc n m) n m.
+Proof. intros [D Sl Ly [A O]]. constructor; cbn [seg_ramp_plane pl_mask pl_slices]; try assumption.
+  split; [exact A|]. cbn [pl_opd pnr pnc]. split; reflexivity. Qed.
+
+(* Chain_segmented_tilt (C03 o C04 o C07 o C02).
+   A: Wavefront * segmented Pupil whose .tilt holds one Tilt(x=a_k, y=b_k) per segment (what fit_tilt leaves behind),
+      propagated with Field.shift: every segment lands in its own window, moved by its own shift.
+   B: the same pupil with every segment's ramp written into the OPD on that segment's mask, no metadata.
+   Both rendered fields are built from the same per-segment terms X_k (the segment's transform at the sample's
+   coordinate minus the segment's shift): A = sum_k [window_k] X_k, B = [window_0] sum_k X_k. *)
+Theorem segmented_tilt_equals_ramps (P : plane S) (ms : list (garr bool)) (abs : list (Qc * Qc)) lam pix foc z dur duc
+        shape pshape os dxr dxc n m Sr Sc Pr Pc :
+  plane_ok P n m -> pl_mask P = PM3 n m ms -> disjoint_masks ms ->
+  pl_tilt P = map (fun ab => TiltAng (snd ab) (fst ab)) abs -> length abs = length ms -> 0 < n -> 0 < m ->
+  mul_pixelscale (pl_pix P) (pix_broadcast pix) = Ok (Some (dxr, dxc)) -> pl_focal P = Some (FVal z) ->
+  dur <> 0%Qc -> duc <> 0%Qc -> lam <> 0%Qc -> z <> 0%Qc ->
+  match shape with None => (n, m) | Some s => s end = (Sr, Sc) ->
+  match pshape with None => (Sr, Sc) | Some p => p end = (Pr, Pc) ->
+  0 < Sr -> 0 < Sc -> 0 < Pr -> 0 < Pc -> 1 <= os ->
+  let w0 := pwf_init (S := S) lam pix foc [] in
+  let L := combine ms abs in
+  let Pramp := mkPlane (pl_amp P)
+     (OpdA (mkP n m (fun x y => (opd_at (pl_opd P) x y +
+        fold_right (fun gab acc =>
+          ((if mask_at (fst gab) x y
+            then fst (snd gab) * (zq (x - n / 2) * dxr) - snd (snd gab) * (zq (y - m / 2) * dxc) else 0) + acc)%Qc) 0%Qc L)%Qc)))
+     (pl_mask P) (pl_slices P) (pl_pix P) [] (pl_focal P) in
+  let ar := ((dxr * dur) / (lam * z * zq os))%Qc in
+  let ac := ((dxc * duc) / (lam * z * zq os))%Qc in
+  let shr := fun gab : garr bool * (Qc * Qc) => (z * fst (snd gab) * zq os / dur)%Qc in
+  let shc := fun gab : garr bool * (Qc * Qc) => (- (z * snd (snd gab) * zq os / duc))%Qc in
+  let X := fun (gab : garr bool * (Qc * Qc)) (i j : Z) =>
+    (sumZ n (fun x => sumZ m (fun y =>
+       (amp_at (pl_amp P) x y * kofb (pget (fst gab) x y) * ke (- (opd_at (pl_opd P) x y / lam))%Qc
+        * ke (ar * zq (x - n / 2) * (zq (i - (Sr * os) / 2) - shr gab)
+              + ac * zq (y - m / 2) * (zq (j - (Sc * os) / 2) - shc gab))%Qc)%K))
+     * sq (qabs (ar * ac)%Qc))%K in
+  exists vA oA vB oB,
+    chain_propagate_tilted sq [P] w0 dur duc shape pshape os = Ok vA /\ wfield vA = Ok oA /\
+    chain_propagate sq [Pramp] w0 dur duc shape pshape os = Ok vB /\ wfield vB = Ok oB /\
+    nr oA = Sr * os /\ nc oA = Sc * os /\ nr oB = Sr * os /\ nc oB = Sc * os /\
+    forall i j, 0 <= i < Sr * os -> 0 <= j < Sc * os ->
+      let u := i - (Sr * os) / 2 in let v := j - (Sc * os) / 2 in
+      get oA i j = fold_right (fun gab acc =>
+         ((if inE (array_extent (Pr * os) (Pc * os) (qfix (shr gab)) (qfix (shc gab))) u v then X gab i j else k0) + acc)%K) k0 L /\
+      get oB i j = (if inE (array_extent (Pr * os) (Pc * os) 0 0) u v
+                    then fold_right (fun gab acc => (X gab i j + acc)%K) k0 L else k0).
+Proof.
+  intros Hok Em Hdis Htl Hlen Hn Hm Hpx Hfo Hdur Hduc Hlam Hz Hshape Hpshape HSr HSc HPr HPc Hos
+         w0 L Pramp ar ac shr shc X.
+  assert (Htl' : pl_tilt P = map mkt abs) by exact Htl.
+  change Pramp with (seg_ramp_plane P L dxr dxc n m).
+  assert (EmsL : map fst L = ms) by (apply combine_map_fst; exact Hlen).
+  (* A *)
+  destruct (segmented_multiply_fresh P ms abs lam pix foc n m (Some (dxr, dxc)) Hok Em Htl' Hlen Hpx)
+    as (wA & EA & LA & PA & SA & FA & HA). rewrite Hfo in FA. fold L in HA.
+  (* B *)
+  pose proof (seg_ramp_plane_ok P L dxr dxc n m Hok) as HokB.
+  destruct (plane_multiply_spec S Sring (seg_ramp_plane P L dxr dxc n m) w0 n m (Some (dxr, dxc)) HokB
+              (fresh_valid S lam pix foc []) Hpx) as (wB & EB & LB & PB & SB & FB & ZB & GB).
+  cbn [seg_ramp_plane pl_focal] in FB. rewrite Hfo in FB. change (pw_lam w0) with lam in LB, GB.
+  assert (TB : forall f, In f (pw_data wB) -> fsized f /\ ftilt f = []).
+  { intros f Hf. split; [now apply ZB|].
+    destruct (plane_multiply_untilted (seg_ramp_plane P L dxr dxc n m) w0 wB eq_refl EB f Hf) as (g0 & [<-|[]] & ->). reflexivity. }
+  assert (Hlayer : forall gab, In gab L -> pnr (fst gab) = n /\ pnc (fst gab) = m).
+  { intros gab Hg. apply (ok_layers S P n m Hok). rewrite Em. cbn [masks_of]. now apply (in_combine_fst ms abs). }
+  assert (HA' : forall f, In f (pw_data wA) -> fsized f /\ (exists a b, ftilt f = [mk_tilt a b]) /\
+     forall r c, inr n (r + n / 2) && inr m (c + m / 2) = false -> embed f r c = k0).
+  { intros f Hf. destruct (Forall2_in_l _ _ _ HA f Hf) as (gab & Hg & (Vf & Tf & Gf)). split; [exact Vf|]. split.
+    - exists (fst (snd gab)), (snd (snd gab)). exact Tf.
+    - intros r c E. rewrite Gf. destruct (Hlayer gab Hg) as [E1 E2]. unfold mask_at. rewrite E1, E2, E. cbn [andb kofb]. ring. }
+  assert (Hsum : forall r c, embed_sum (pw_data wB) r c =
+     lsum S (map (fun f => (embed f r c *
+        ke (- (opd_ramp (fst (tilt_ab f)) (snd (tilt_ab f)) dxr dxc r c / pw_lam wA))%Qc)%K) (pw_data wA))).
+  { intros r c. rewrite GB. unfold w0. rewrite (ec_sum_fresh S Sring). rewrite LA.
+    rewrite (lsum_forall2 (seg_field P lam n m)
+               (fun f => (embed f r c * ke (- (opd_ramp (fst (tilt_ab f)) (snd (tilt_ab f)) dxr dxc r c / lam))%Qc)%K)
+               (fun gab => (amp_at (pl_amp P) (r + n / 2) (c + m / 2) *
+                  (Plane.phase lam (opd_at (pl_opd P) (r + n / 2) (c + m / 2)) * kofb (mask_at (fst gab) (r + n / 2) (c + m / 2))
+                   * ke (- (opd_ramp (fst (snd gab)) (snd (snd gab)) dxr dxc (r + n / 2 - n / 2) (c + m / 2 - m / 2) / lam))%Qc))%K)
+               _ _ HA).
+    2:{ intros x gab _ (Vx & Tx & Gx). rewrite Gx, (tilt_ab_single x _ _ Tx). cbn [fst snd].
+        replace (r + n / 2 - n / 2) with r by lia. replace (c + m / 2 - m / 2) with c by lia. ring. }
+    rewrite <- (map_map (fun gab => (Plane.phase lam (opd_at (pl_opd P) (r + n / 2) (c + m / 2)) * kofb (mask_at (fst gab) (r + n / 2) (c + m / 2))
+                   * ke (- (opd_ramp (fst (snd gab)) (snd (snd gab)) dxr dxc (r + n / 2 - n / 2) (c + m / 2 - m / 2) / lam))%Qc)%K)
+                 (fun t => (amp_at (pl_amp P) (r + n / 2) (c + m / 2) * t)%K)).
+    rewrite (PlaneP.lsum_scale_l S Sring).
+    rewrite <- (seg_sum_identity L dxr dxc n m (r + n / 2) (c + m / 2) lam) by (rewrite EmsL; exact Hdis).
+    unfold transmission. cbn [seg_ramp_plane pl_amp pl_opd pl_mask opd_at pget]. rewrite Em. cbn [masks_of]. rewrite EmsL. ring. }
+  destruct (segmented_tilt_fields wA wB z dur duc shape pshape os dxr dxc n m Sr Sc Pr Pc
+              SA PA FA SB PB FB ltac:(congruence) HA' TB Hsum Hdur Hduc ltac:(now rewrite LA) Hz Hn Hm Hshape Hpshape
+              HSr HSc HPr HPc Hos) as (vA & oA & vB & oB & EvA & FoA & EvB & FoB & NA & MA & NB & MB & G).
+  exists vA, oA, vB, oB.
+  split. { unfold chain_propagate_tilted, w0. cbn [chain_multiply]. rewrite EA. cbn [rbind]. exact EvA. }
+  split; [exact FoA|].
+  split. { unfold chain_propagate. cbn [chain_multiply]. rewrite EB. cbn [rbind]. exact EvB. }
+  split; [exact FoB|]. repeat (split; [assumption|]).
+  intros i j Hi Hj. cbv zeta. destruct (G i j Hi Hj) as [GA GBB]. cbv zeta in GA, GBB. rewrite LA in GA, GBB.
+  fold ar ac in GA, GBB.
+  (* the per-field terms are the per-segment terms *)
+  assert (EX : forall x gab, In gab L -> seg_field P lam n m x gab ->
+     (fourier_sum (mkArr n m (fun a b => embed x (a - n / 2) (b - m / 2))) ar ac 0 0
+        (zq (i - Sr * os / 2) - z * fst (tilt_ab x) * zq os / dur)%Qc
+        (zq (j - Sc * os / 2) - - (z * snd (tilt_ab x) * zq os / duc))%Qc * sq (qabs (ar * ac)%Qc))%K = X gab i j
+     /\ tilt_ab x = snd gab).
+  { intros x gab Hg (Vx & Tx & Gx). pose proof (tilt_ab_single x _ _ Tx) as Et. split; [|rewrite Et; now destruct (snd gab)].
+    rewrite Et. cbn [fst snd]. unfold X, shr, shc. f_equal. rewrite fourier_sum_image_sumQ. unfold image_sumQ.
+    apply sumZ_ext; intros a Ha. apply sumZ_ext; intros b Hb. f_equal. rewrite Gx.
+    replace (a - n / 2 + n / 2) with a by lia. replace (b - m / 2 + m / 2) with b by lia.
+    destruct (Hlayer gab Hg) as [E1 E2]. unfold mask_at. rewrite E1, E2.
+    replace (inr n a) with true by (unfold inr; lia). replace (inr m b) with true by (unfold inr; lia).
+    cbn [andb]. unfold Plane.phase. ring. }
+  split.
+  - rewrite GA. rewrite <- (lsum_map_fold S).
+    apply (lsum_forall2 (seg_field P lam n m) _ _ _ _ HA). intros x gab Hg Hx.
+    destruct (EX x gab Hg Hx) as [E1 E2]. unfold shr, shc. rewrite <- E2. rewrite E1. reflexivity.
+  - rewrite GBB. destr_if; [|reflexivity]. rewrite <- (lsum_map_fold S).
+    apply (lsum_forall2 (seg_field P lam n m) _ _ _ _ HA). intros x gab Hg Hx. exact (proj1 (EX x gab Hg Hx)).
+Qed.
 End ChainTilt.
